@@ -422,3 +422,26 @@ func vCookiesPairs(cs []*http.Cookie) vsx {
 	}
 	return vL(items...)
 }
+
+
+// vCsrfRaw decrypts a CSRF cookie value with the standard library: raw OIDC nonce, raw state
+// nonce and code verifier.
+func vCsrfRaw(secret, cookieValue string) (nonce, state, verifier string) {
+	parts := strings.Split(cookieValue, "|")
+	if len(parts) != 3 {
+		return
+	}
+	raw, err := base64.URLEncoding.DecodeString(parts[0])
+	if err != nil {
+		return
+	}
+	pt, ok := vDecryptCFB(vSecretBytes(secret), raw)
+	if !ok {
+		return
+	}
+	var rec vCSRFRec
+	if msgpack.Unmarshal(pt, &rec) != nil {
+		return
+	}
+	return string(rec.OIDCNonce), string(rec.OAuthState), rec.CodeVerifier
+}
